@@ -308,7 +308,7 @@ DEFAULT = {
     "version": TLS12, "suite": 0xC02F, "etm": False, "hs_secrets": True, "sid_len": 32, "exts": "typical",
     "abbreviated": False, "server_group": "one_each", "client_group": "one_each", "ccs13": True, "pad13": 0, "pad13_hs": 0,
     "tickets": 0, "ticket_pos": "before", "enc_flight_split": None, "offered": None, "keylog_label": "CLIENT_RANDOM",
-    "history": [("c", 100), ("s", 300)], "pad_blocks": 0, "sflight_records": None,
+    "history": [("c", 100), ("s", 300)], "pad_blocks": 0, "sflight_records": None, "early_s": 0,
 }
 
 
@@ -493,6 +493,11 @@ class Connection:
         for g in groups:
             srecs.append(Rec("s", shs.protect(CT_HS, b"".join(g), pad13=s["pad13_hs"]), "hs_enc"))
         self.sends.append(("s", srecs))
+        # 0.5-RTT data: the server may send application data right after its Finished, before the client's Finished
+        for i in range(s["early_s"]):
+            data = self._app_payload("s", 40 + 7 * i)
+            self.app["s"].append(data)
+            self.sends.append(("s", [Rec("s", sap.protect(CT_APP, data, pad13=s["pad13"]), "app", data)]))
         crecs = []
         if s["ccs13"]:
             crecs.append(Rec("c", self._plain_record(CT_CCS, b"\x01", TLS12), "ccs"))
